@@ -122,6 +122,26 @@ def corpus():
                   AP(O(b"a", gates=[(0, 1), (0, 0)], ann=1)), AP(O(b"a", ann=2)), AP(O(b"a", gates=[(2, 1)])),
                   AP(O(b"a", ann=3))], [b"a"]))
     cs.append(mk([AP(O(b"a", gates=[(1, 1), (3, 1)])), AP(O(b"a", gates=[(3, 1)]))], [b"a"]))
+    # value -> removed (nil / empty) -> the IDENTICAL earlier value restored, for every section: a section syncer
+    # that skips "unchanged" input must not compare with a remembered value that an intermediate change did not
+    # invalidate (seeded/C11-a-gate-annotation-cache: the gate annotation string survives the reset branch)
+    for ann in (0, 1, 2, 3):
+        cs.append(mk([AP(O(b"a", gates=[(1, 1)])), AP(O(b"a", ann=ann)), AP(O(b"a", gates=[(1, 1)]))], [b"a"]))
+    cs.append(mk([AP(O(b"a", gates=[(3, 1), (0, 1)])), AP(O(b"a", gates=[(2, 1)])), AP(O(b"a")),
+                  AP(O(b"a", gates=[(3, 1), (0, 1)])), AP(O(b"a", ann=3)), AP(O(b"a", gates=[(2, 1)]))], [b"a"]))
+    fcx = [S(b"s1", 1, 5), S(b"s2", 2, 5, 10, strat=2, glob=1)]
+    polx = [P(["get"], b"s1", subset=[1], log=1), P(["*"], b"s2")]
+    epx = ((0, 2), (1, 0), (2, 1))
+    full = dict(sn=[b"x", b"Y"], cert=1, key=1, ca=2, fc=fcx, pol=polx, eps=epx, log=2, gates=[(0, 1)])
+    bare = dict(eps=((3, 0),))
+    cs.append(mk([AP(O(b"a", **full)), AP(O(b"a", **bare)), AP(O(b"a", **full))], [b"a"], [b"x", b"y"]))
+    for sec, removed in (("fc", dict(fc=[], pol=[P(["*"])])), ("sn", dict(sn=[])), ("tls", dict(cert=0, key=0, ca=0)),
+                         ("key", dict(key=0)), ("ca", dict(ca=0)), ("eps", dict(eps=((1, 2),), pol=[P(["*"])])),
+                         ("dis", dict(eps=((0, 0), (1, 2), (2, 0)))), ("pol", dict(pol=[P(["list"])])),
+                         ("log", dict(log=0)), ("schema", dict(fc=[fcx[1]], pol=[P(["*"], b"s2")]))):
+        mid = dict(full)
+        mid.update(removed)
+        cs.append(mk([AP(O(b"a", **full)), AP(O(b"a", **mid)), AP(O(b"a", **full))], [b"a"], [b"x", b"y"]))
     # (D1) key removed while the certificate stays; CA removed and restored
     cs.append(mk([AP(O(b"a", cert=1, key=1, ca=1)), AP(O(b"a", cert=1, key=0, ca=1)), AP(O(b"a", cert=1, key=0))], [b"a"]))
     cs.append(mk([AP(O(b"a", cert=2, key=2)), AP(O(b"a", cert=0, key=2, ca=2)), AP(O(b"a", cert=3, key=3, ca=2)),
